@@ -138,7 +138,7 @@ def in_decoder_domain(body):
     while i < len(body):
         c = body[i]
         if c == "\\":
-            if i + 1 >= len(body) or body[i + 1] not in '\\"n':
+            if i + 1 >= len(body) or body[i + 1] not in '\\"nr':
                 return False
             i += 2
         else:
@@ -263,8 +263,8 @@ def correspondence(env, strings, tables):
 
 
 def quotable(s):
-    """Inside the theorem's class (Model/Quote.v quotable_char): no NUL, carriage return or surrogate."""
-    return all(c not in "\0\r" and not 0xD800 <= ord(c) <= 0xDFFF for c in s)
+    """Inside the theorem's class (Model/Quote.v quotable_char): no NUL or surrogate."""
+    return all(c not in "\0" and not 0xD800 <= ord(c) <= 0xDFFF for c in s)
 
 
 def safe_quotify(strs):
@@ -409,4 +409,4 @@ def run(env):
     env.sample({"obligation": "C06_dict: forall small contents s, forallb printable_ascii s = true -> uncompress_dict small contents v = v /\\ pushed_string (token_text (uncompress_dict small contents) (STRING v)) = Some s"})
     env.assume("py_dq_decode is Python's decoding of a double-quoted literal body on its stated domain (checked against ast.literal_eval, not proved)")
     env.assume("the models of quotify, the lexer, transpile_token's STRING branch and uncompress_dict equal the implementation (checked by the correspondence, not proved); uncompress_dict is modelled for every dictionary and compared under a stand-in dictionary and, without compression characters, under the real one")
-    env.assume("strings containing NUL, a carriage return or a surrogate are outside the theorem and outside the code page (C06_raw_class_is_needed: a carriage return reaches the generated Python raw)")
+    env.assume("strings containing NUL or a surrogate are outside the theorem and outside the code page (C06_raw_class_is_needed: a NUL reaches the generated Python raw)")
